@@ -294,6 +294,73 @@ def _percycle(args):
     return {"n": ncycles, "vb": vb}
 
 
+def period_change_cases():
+    """(which timer, old period, new period, the other timer's period, cycles ticked before the change)."""
+    return [(w, po, pn, other, c0) for w in ("mti", "sti") for po in (0, 3) for pn in (0, 2, 3, 5, 7) for other in (0, 4)
+            for c0 in (0, 1, 2, 3, 6, 10)]
+
+
+def _period_change(args):
+    """A period assigned at run time (the emulator's own `_timer_*_period` setters write the scheduler's public field).
+    The statement does not say where the boundaries lie after such a change, so no reference is used; judged are only its
+    invariants, on every one of W per-cycle ticks after the change: an active timer's next target is strictly in the future
+    after every tick, it fires exactly when its target is reached, a firing sets its status bit, the targets move by one
+    period, the number of firings in the window is within [W/p - 1, ceil(W/p) + 1], and a zero-period timer never fires."""
+    (cases,) = args
+    vb = VB()
+    n = 0
+    W = 40
+    for (which, po, pn, other, c0) in cases:
+        cfg = (po, other, True) if which == "mti" else (other, po, True)
+        emu = _mk_py(*cfg)
+        sch = emu._scheduler
+        bit = 1 if which == "mti" else 2
+        cyc = 0
+        for _ in range(c0):
+            cyc += 1
+            emu.cycle_count = cyc
+            emu._tick_timers()
+        setattr(emu, f"_timer_{which}_period", pn)
+        fires = 0
+        bad = None
+        for _ in range(W):
+            cyc += 1
+            emu.cycle_count = cyc
+            emu.memory.write_byte(ISR_ADDR, 0)
+            before = getattr(sch, f"next_{which}")
+            emu._tick_timers()
+            after = getattr(sch, f"next_{which}")
+            isr = emu.memory.read_byte(ISR_ADDR) & 3
+            fired = after != before
+            n += 1
+            if pn == 0:
+                if fired or isr & bit:
+                    bad = ("zero-period-fires", f"cycle {cyc}: a timer with period 0 fired")
+            else:
+                if after <= cyc:
+                    bad = ("target-not-in-future", f"cycle {cyc}: next target {after} is not in the future")
+                elif fired != (before <= cyc):
+                    bad = ("fires-off-target", f"cycle {cyc}: target {before}, fired={fired}")
+                elif fired and not (isr & bit):
+                    bad = ("status-bit-missing", f"cycle {cyc}: fired without its status bit")
+                elif fired and fires >= 1 and after - before != pn:
+                    bad = ("target-step", f"cycle {cyc}: target moved {before}->{after}, period {pn}")
+                elif bool(isr & bit) != fired:
+                    bad = ("status-without-fire", f"cycle {cyc}: status bit {isr & bit} fired={fired}")
+            fires += fired
+            if bad:
+                break
+        # between W//p - 1 and ceil(W/p) + 1: the boundaries inside the window, plus at most one catch-up firing for a target
+        # that the change left in the past
+        if not bad and pn and not (W // pn - 1 <= fires <= -(-W // pn) + 1):
+            bad = ("fire-count", f"{fires} firings in {W} cycles")
+        if bad:
+            vb.add(f"C13/python/period-change/{bad[0]}/{which}",
+                   f"{which} period {po}->{pn} at cycle {c0} (other timer {other}): {bad[1]}",
+                   {"pchg": [which, po, pn, other, c0]})
+    return {"n": n, "vb": vb}
+
+
 def run(ctx) -> None:
     rb.build()
     small = [(m, s) for m in range(0, 7) for s in range(0, 7)] + [(7, 13)]
@@ -324,6 +391,11 @@ def run(ctx) -> None:
     per = pmap(_percycle, [((m, s, True), 4 * max(m, s, 1) * (3 if ctx.thorough else 1) + 3) for m, s in small if m or s])
     for r in clo + dflt + per:
         ctx.merge_bucket(r["vb"])
+    pc = period_change_cases()
+    resPC = pmap(_period_change, [(c,) for c in chunks(pc, nproc())])
+    for r in resPC:
+        ctx.merge_bucket(r["vb"])
+    ctx.coverage["python_period_change"] = {"cases": len(pc), "ticks_judged": sum(r["n"] for r in resPC)}
     from . import c13_machine
     ctx.coverage["machine_level"] = c13_machine.run_machine(ctx)
     ctx.level = "model_checking"
@@ -358,6 +430,11 @@ def replay(ctx, w) -> Optional[str]:
         for sig, (cnt, wl) in r["vb"].d.items():
             if "instruction-boundaries" in sig:
                 return wl[0][0]
+        return None
+    if w.get("pchg"):
+        r = _period_change(([tuple(w["pchg"])],))
+        for sig, (cnt, wl) in r["vb"].d.items():
+            return wl[0][0]
         return None
     if w.get("machine"):
         from . import c13_machine
